@@ -5,7 +5,7 @@
 package quorum
 
 //@ func GetWeights
-//@   props C06
+//@   props C06 C02 C03 C07 C08
 //@   ensures [copy.len] len(result) == len(members) && !isnil(result)
 //@   ensures [copy.elems] forall k :: 0 <= k && k < len(members) ==> result[k] == members[k].Weight
 //@   ensures [copy.sum] SumW(result, len(result)) == SumMW(members, len(members))
@@ -15,14 +15,14 @@ package quorum
 //@     invariant [sum] SumW(weights, $i) == SumMW(members, $i)
 
 //@ func CalcQuorumWeight
-//@   props C06
+//@   props C06 C02 C03 C07 C08
 //@   requires SumW(committeeWeights, len(committeeWeights)) < 2^64
 //@   ensures [value] result == Qz(SumW(committeeWeights, len(committeeWeights)))
 //@   loop range committeeWeights
 //@     invariant [sum] sum == SumW(committeeWeights, $i)
 
 //@ func CalcByzMaxWeight
-//@   props C06
+//@   props C06 C02 C03 C07 C08
 //@   requires SumW(committeeWeights, len(committeeWeights)) < 2^64
 //@   ensures [value] result == Fz(SumW(committeeWeights, len(committeeWeights)))
 //@   loop range committeeWeights
@@ -30,12 +30,12 @@ package quorum
 
 //@ func calcF
 //@   mode bv
-//@   props C06
+//@   props C06 C02 C03 C07 C08
 //@   requires totalWeight >= 1
 //@   ensures [exact] result == (totalWeight - 1) / 3
 
 //@ func getCommitteeSubsetWeight
-//@   props C06
+//@   props C06 C02 C03 C07 C08
 //@   requires SumMW(allCommitteeMembers, len(allCommitteeMembers)) < 2^64
 //@   ensures [value] result == SW(committeeSubset, allCommitteeMembers, len(allCommitteeMembers))
 //@   loop range committeeSubset
@@ -45,14 +45,14 @@ package quorum
 //@     invariant [sum] sum == SW(committeeSubset, allCommitteeMembers, $i)
 
 //@ func IsQuorum
-//@   props C06
+//@   props C06 C02 C03 C07 C08
 //@   requires SumMW(allCommitteeMembers, len(allCommitteeMembers)) < 2^64
 //@   ensures [iff] result0 == (SW(committeeSubset, allCommitteeMembers, len(allCommitteeMembers)) >= Qz(SumMW(allCommitteeMembers, len(allCommitteeMembers))))
 //@   ensures [weight] result1 == SW(committeeSubset, allCommitteeMembers, len(allCommitteeMembers))
 //@   ensures [q] result2 == Qz(SumMW(allCommitteeMembers, len(allCommitteeMembers)))
 
 //@ func HasHonest
-//@   props C06
+//@   props C06 C02 C03 C07 C08
 //@   requires SumMW(allCommitteeMembers, len(allCommitteeMembers)) < 2^64
 //@   ensures [iff] result0 == (SW(committeeSubset, allCommitteeMembers, len(allCommitteeMembers)) > Fz(SumMW(allCommitteeMembers, len(allCommitteeMembers))))
 //@   ensures [weight] result1 == SW(committeeSubset, allCommitteeMembers, len(allCommitteeMembers))
